@@ -33,16 +33,20 @@ func (f *VP9Frame) bytes() ([]byte, int) {
 }
 
 type VP9PayCase struct {
-	Flexible  bool       `json:"flexible"`
-	InitialID uint16     `json:"initial_id"`
-	MTU       uint16     `json:"mtu"`
-	Frames    []VP9Frame `json:"frames"`
+	Flexible    bool       `json:"flexible"`
+	InitialID   uint16     `json:"initial_id"`
+	MTU         uint16     `json:"mtu"`
+	Frames      []VP9Frame `json:"frames"`
+	OneReceiver bool       `json:"one_receiver,omitempty"` // the whole stream is decoded by one VP9Packet, not a fresh one per packet
 }
 
 type VP9DescCase struct {
 	D       vp9desc.Desc `json:"d"`
 	Payload HexBytes     `json:"payload"`
 	Cut     int          `json:"cut"`
+	// Pre: descriptors (each followed by two payload bytes) decoded earlier into the SAME VP9Packet;
+	// the reading of this one must not depend on them
+	Pre []vp9desc.Desc `json:"pre,omitempty"`
 }
 
 type VP9HdrCase struct {
@@ -61,6 +65,7 @@ func checkC12Pay(r *run, c *VP9PayCase) (CaseInfo, error) {
 	init := c.InitialID
 	p := &codecs.VP9Payloader{FlexibleMode: c.Flexible, InitialPictureIDFn: func() uint16 { return init }}
 	id := c.InitialID & 0x7FFF
+	var stream codecs.VP9Packet
 	if c.Flexible {
 		ci.class("flexible")
 	} else {
@@ -84,7 +89,11 @@ func checkC12Pay(r *run, c *VP9PayCase) (CaseInfo, error) {
 			if len(pk) > int(c.MTU) {
 				return ci, failf("%s: %d bytes exceed the MTU", what, len(pk))
 			}
-			var vp codecs.VP9Packet
+			vp := &codecs.VP9Packet{}
+			if c.OneReceiver {
+				vp = &stream
+				ci.class("stream-through-one-receiver")
+			}
 			payload, err := vp.Unmarshal(pk)
 			if err != nil {
 				return ci, failf("%s: VP9Packet rejects it: %v", what, err)
@@ -220,6 +229,10 @@ func checkC12Desc(r *run, c *VP9DescCase) (CaseInfo, error) {
 	}
 	ci.Nontrivial = (c.D.V && c.D.G && len(c.D.PGs) > 0) || len(in) < len(db) || (c.D.F && c.D.P && len(c.D.PDiff) >= 2)
 	var vp codecs.VP9Packet
+	for i := range c.Pre {
+		_, _ = vp.Unmarshal(append(vp9desc.Build(&c.Pre[i]), 0xAB, 0xCD))
+		ci.class("receiver-used-before")
+	}
 	arg := clone(in)
 	if len(in) == 0 {
 		arg = []byte{}
@@ -360,7 +373,7 @@ func genVP9Hdr(t *rapid.T, forceKey int) vp9hdr.Header {
 }
 
 func genVP9PayCase(t *rapid.T) *VP9PayCase {
-	c := &VP9PayCase{Flexible: genBool(t, "flexible")}
+	c := &VP9PayCase{Flexible: genBool(t, "flexible"), OneReceiver: genBool(t, "onereceiver")}
 	c.InitialID = uint16(biased(t, "initial", 0, 65535, 0, 1, 127, 128, 32766, 32767, 32768, 65535))
 	nf := rapid.IntRange(1, 4).Draw(t, "nframes")
 	minMTU := 4
@@ -391,6 +404,17 @@ func genVP9PayCase(t *rapid.T) *VP9PayCase {
 }
 
 func genVP9DescCase(t *rapid.T) *VP9DescCase {
+	c := genVP9DescCase1(t)
+	if rapid.IntRange(0, 1).Draw(t, "withpre") == 1 {
+		for i, k := 0, rapid.IntRange(1, 2).Draw(t, "npre"); i < k; i++ {
+			c.Pre = append(c.Pre, genVP9DescCase1(t).D)
+		}
+	}
+
+	return c
+}
+
+func genVP9DescCase1(t *rapid.T) *VP9DescCase {
 	d := vp9desc.Desc{
 		I: genBool(t, "I"), P: genBool(t, "P"), L: genBool(t, "L"), F: genBool(t, "F"), B: genBool(t, "B"), E: genBool(t, "E"),
 		V: rapid.IntRange(0, 2).Draw(t, "V") == 0, Z: genBool(t, "Z"),
@@ -455,7 +479,7 @@ func genVP9DescCase(t *rapid.T) *VP9DescCase {
 	return c
 }
 
-const ruleC12 = "payloader: 1-4 frames whose uncompressed header prefix is written bit by bit by an independent writer (profiles 0-3 with reserved bit, show_existing_frame, key/non-key, all colour spaces incl. RGB, subsampling bits, size-1 in [0,65534]^2, garbage in reserved and trailing bits) followed by 0-5000 random bytes (one case in 60: a frame of 65520-200000 bytes), flexible and non-flexible mode, MTU >= 4 (>= 12 when a non-flexible key frame occurs) biased to the thresholds, initial picture id biased to 0,127,128,32766,32767,65535; every packet is decoded by VP9Packet and by an independent RFC 9628 descriptor parser: concatenation = frame, B/E placement, IsPartitionHead=B, F=mode, 15-bit id constant per frame and +1 per frame mod 2^15, <= MTU, non-flexible P=non-key and V/Y/width/height on the first packet of a key frame. descriptor: reference-built descriptors (I 7/15 bit, L, F with I, 1-3 P_DIFF, SS with N_S 0-7, Y, G, N_G 0-255 with R 0-3; SID 0-4 since pion supports 5 spatial layers by design) + payload, all truncations rejected. header: vp9.Header.Unmarshal equals the writer's fields and rejects every short byte prefix. Non-trivial = >=2 packets, non-flexible key frame with profile>=1 or RGB, SS with picture groups, >=2 P_DIFF, truncation, key-frame header; distinct = FNV-64 of the JSON case"
+const ruleC12 = "payloader: 1-4 frames whose uncompressed header prefix is written bit by bit by an independent writer (profiles 0-3 with reserved bit, show_existing_frame, key/non-key, all colour spaces incl. RGB, subsampling bits, size-1 in [0,65534]^2, garbage in reserved and trailing bits) followed by 0-5000 random bytes (one case in 60: a frame of 65520-200000 bytes), flexible and non-flexible mode, MTU >= 4 (>= 12 when a non-flexible key frame occurs) biased to the thresholds, initial picture id biased to 0,127,128,32766,32767,65535; every packet is decoded by VP9Packet (a fresh one per packet, or one for the whole stream) and by an independent RFC 9628 descriptor parser: concatenation = frame, B/E placement, IsPartitionHead=B, F=mode, 15-bit id constant per frame and +1 per frame mod 2^15, <= MTU, non-flexible P=non-key and V/Y/width/height on the first packet of a key frame. descriptor: reference-built descriptors (I 7/15 bit, L, F with I, 1-3 P_DIFF, SS with N_S 0-7, Y, G, N_G 0-255 with R 0-3; SID 0-4 since pion supports 5 spatial layers by design) + payload, all truncations rejected; half of the cases decode 1-2 other descriptors into the same VP9Packet first. header: vp9.Header.Unmarshal equals the writer's fields and rejects every short byte prefix. Non-trivial = >=2 packets, non-flexible key frame with profile>=1 or RGB, SS with picture groups, >=2 P_DIFF, truncation, key-frame header; distinct = FNV-64 of the JSON case"
 
 func TestC12(t *testing.T) {
 	r := begin(t, "C12", "exploration", ruleC12)
